@@ -74,6 +74,8 @@ pub struct Kernel {
     pub progress: u64,
     /// largest number of real threads seen at a blocking seam call (1 for the shipped, single-threaded compiler)
     pub max_threads: usize,
+    /// how many seeded delays were handed out per (subject, operation) - see `jitter_us`
+    jitter_counts: std::collections::BTreeMap<(usize, u8), u64>,
 }
 
 /// Outcome of one attempt at a blocking compiler-side operation.
@@ -98,6 +100,22 @@ pub fn trace(seq: &mut u64, ev: Ev) {
 }
 
 impl Kernel {
+    /// A compiler that runs threads of its own interleaves them as the OS pleases; the simulator cannot schedule
+    /// them, but it can lean on them: every blocking seam call of a multi-threaded compiler is first held back for
+    /// a seeded 0..3 ms, keyed by WHAT the call is about (which generator, which operation, how many-th time) - not
+    /// by which thread makes it, which would itself be a race. Delays of this size dominate the natural jitter, so
+    /// completion orders follow the seed closely, and another seed gives another order.
+    pub fn jitter_us(&mut self, subject: usize, op: u8) -> u64 {
+        let n = self.jitter_counts.entry((subject, op)).or_default();
+        *n += 1;
+        let mut f = refcodec::util::Fnv::default();
+        f.update_u64(self.sim.choice_seed ^ 0x7177_E2);
+        f.update_u64(subject as u64);
+        f.update_u64(op as u64);
+        f.update_u64(*n);
+        f.0 % 3000
+    }
+
     pub fn new(sim: Sim) -> Kernel {
         let explicit = sim.choices.iter().copied().collect();
         let rng = Rng::new(sim.choice_seed ^ 0x51AB_1E5E_ED00_0001);
@@ -113,6 +131,7 @@ impl Kernel {
             active: true,
             progress: 0,
             max_threads: 1,
+            jitter_counts: Default::default(),
         }
     }
 
